@@ -39,6 +39,7 @@ Atoms == << <<97>>, <<90>>, <<32>>, <<35>>, <<34>>, <<39>>, <<44>>, <<233>>, <<8
             <<92, 110>>, <<92, 116>>, <<92, 92>>, <<92, 39>>, <<92, 34>>, <<92, 120, 52, 49>>, <<92, 120, 101, 57>>,
             <<92, 49, 48, 49>>, <<92, 48>>, <<40>>, <<41>> >>
 
+NatWidth(n) == IF n \in {"l", "L"} THEN 8 ELSE FmtWidth(n)
 VARIABLES kind, name, val, str
 vars == <<kind, name, val, str>>
 Init == kind = "" /\ name = "" /\ val = Val(FALSE, ZeroB) /\ str = <<>>
@@ -48,6 +49,9 @@ PickInt == Mode = "ints" /\ kind = "" /\ str' = str /\
   \/ kind' = "short" /\ name' \in ShortNames /\ val' \in Values(SeqWidth(name'))
   \/ kind' = "packle" /\ name' \in FmtChars /\ val' \in Values(FmtWidth(name'))
   \/ kind' = "packbe" /\ name' \in FmtChars /\ val' \in Values(FmtWidth(name'))
+  \* no prefix / '@': the host's native sizes (assumed LP64 little-endian: l and L are 8 bytes); '=': native order, standard sizes
+  \/ kind' = "packnat" /\ name' \in FmtChars /\ val' \in Values(NatWidth(name'))
+  \/ kind' = "packeq" /\ name' \in FmtChars /\ val' \in Values(FmtWidth(name'))
 
 \* strings grow atom by atom (every prefix is itself a string of the space)
 PickStr == Mode = "strings" /\ Len(str) < MaxAtoms /\ kind' = "string" /\ name' = name /\ val' = val /\
@@ -63,9 +67,11 @@ Expected ==
   CASE kind \in {"seq", "short"} -> EmitInt(SeqWidth(name), val[1], val[2], "infer", FALSE)
     [] kind = "packle" -> EmitInt(FmtWidth(name), val[1], val[2], IF FmtSigned(name) THEN "s" ELSE "u", FALSE)
     [] kind = "packbe" -> EmitInt(FmtWidth(name), val[1], val[2], IF FmtSigned(name) THEN "s" ELSE "u", TRUE)
+    [] kind = "packnat" -> EmitInt(NatWidth(name), val[1], val[2], IF FmtSigned(name) THEN "s" ELSE "u", FALSE)
+    [] kind = "packeq" -> EmitInt(FmtWidth(name), val[1], val[2], IF FmtSigned(name) THEN "s" ELSE "u", FALSE)
     [] OTHER -> <<>>
 
 Export ==
-  /\ (kind \in {"seq", "short", "packle", "packbe"} => PrintT(<<"D", kind, name, val[1], val[2], Expected>>))
+  /\ (kind \in {"seq", "short", "packle", "packbe", "packnat", "packeq"} => PrintT(<<"D", kind, name, val[1], val[2], Expected>>))
   /\ (kind = "string" => PrintT(<<"S", Flat(str), StringBytes(Flat(str))>>))
 =============================================================================
